@@ -6,6 +6,7 @@ A *part* of a stream is a compact, JSON-able byte description (so that replays w
     ['x', '<hex>']                  literal bytes
     ['fill', '<hex of one byte>', n]   n copies of one byte
     ['rep', '<hex>', n]             n copies of a byte string (bursts of identical small frames)
+    ['repp', [part...], n]          n copies of what the inner parts expand to (backlogs of identical LARGE frames)
 `expand(parts)` gives the bytes.  A *malformed frame* is a dict
     {'cls': '<protocol>:<class>[:<variant>]', 'parts': [part...], 'zones': [offsets inside the frame worth cutting at],
      'delimited': bool,      # the frame's own length announcement covers exactly its bytes (the stream stays in sync after it)
@@ -29,6 +30,8 @@ def expand(parts):
             out += bytes.fromhex(p[1]) * p[2]
         elif p[0] == 'rep':
             out += bytes.fromhex(p[1]) * p[2]
+        elif p[0] == 'repp':
+            out += expand(p[1]) * p[2]
         else:
             raise ValueError(p[0])
     return bytes(out)
@@ -298,6 +301,32 @@ def fix_big_valid(rng, ver, fields, text_tag, n_text):
     parts = [lit(pre), ['fill', ch.hex(), n_text], lit(SOH + b'10=' + (b'%03d' % csum) + SOH)]
     total = len(pre) + n_text + 8
     return _mk('fix:big-valid', None, (len(pre), 65535, 65536, 65537, total - 8, total - 1), parts=parts)
+
+
+MIB = 1 << 20
+HUGE_SIZES_QUICK = [5 * MIB, 6 * MIB + 12345, 8 * MIB]                   # larger than any plausible bound on a receive buffer (1, 2, 4 MiB)
+HUGE_SIZES = [MIB + MIB // 2, 3 * MIB, 5 * MIB, 8 * MIB, 12 * MIB, 17 * MIB]
+
+
+def fix_huge(rng, ver, fields, text_tag, total, known):
+    """ONE length-consistent FIX frame of about `total` bytes (several MiB) that really arrives: `text_tag`=<one character, repeated>
+    appended to `fields` (first pair 35=<type>; `known`: the caller says whether that type is in its dictionary).  Nothing about it is
+    malformed except its size (and, when not `known`, its MsgType): a reader that bounds what it buffers meets its bound here."""
+    b = fix_big_valid(rng, ver, fields, text_tag, max(1, total - 120))
+    b['cls'] = f'fix:huge:{total / MIB:.3g}MiB:' + ('known-msgtype' if known else 'unknown-msgtype')
+    return b
+
+
+def soup_backlog(rng, t, total, size=0xFFFF):
+    """`total` bytes (at least) of back-to-back maximum-size data packets of type `t` (S / U / +) — legal traffic; delivered without a
+    reader poll in between it is a multi-megabyte backlog in the reader's buffer (a SoupBinTCP frame alone never exceeds 64 KiB + 2)"""
+    fillb = rng.choice([b'z', b'7'])
+    n = -(-total // (size + 2))
+    unit = [lit(size.to_bytes(2, 'big') + bytes([t])), ['fill', fillb.hex(), size - 1]]
+    b = _mk(f'soup:backlog:{total / MIB:.3g}MiB', b'', (), parts=[['repp', unit, n]])
+    b['len'] = b['wants'] = n * (size + 2)
+    b['unit'] = size + 2
+    return b
 
 
 def fix_garbage(rng):
